@@ -61,7 +61,7 @@ VERDICT = {
     "C06-4": ("C06", "initialiser-overwrite obligation (per-attribute 'may be set' state in the BMC) and __init__ shapes added after the miss; replay = real build, surviving objects"),
     "C06-5": ("C06", "per-edge fix-up shapes added to the generated corpus after the miss"),
     "C07-3": ("C07 W2", "transaction-discipline kernel for the worker-side phase functions added after the miss"),
-    "C07-4": (None, "semantic analyser (which functions are re-analysed in the interface phase): whole-program code, outside the kernels"),
+    "C07-4": ("C07 W3", "interface-phase flag kernel (real front end on generated classes) added after the miss; replay = sequential vs -n 2 / -n 3 builds"),
     "C09-3": ("C09 K1b", "storage-path kernel with symbolic error-code sets added after the miss; evaluated with patch_rebased.diff (a fix: commit touched the same lines); replay needs a per-module config section"),
     "C09-4": ("C02 K2", "as it stood (find_cache_meta decision kernel)"),
     "C12-3": ("C12 K3", "as it stood"),
